@@ -139,11 +139,12 @@ def _particles_kw(detector, value):
                 init_z_velocity=z.copy())
 
 
-def _cube(detector, value):
+def _cube(detector, value, dtype=None):
     import xarray as xr
 
     geo = detector.geometry
-    return xr.DataArray(np.full((2, geo.row, geo.col), float(value)), dims=["wavelength", "y", "x"],
+    return xr.DataArray(np.full((2, geo.row, geo.col), float(value), dtype=np.dtype(dtype or "float64")),
+                        dims=["wavelength", "y", "x"],
                         coords={"wavelength": [500.0, 600.0]})
 
 
@@ -158,8 +159,9 @@ HOWS = {
 }
 
 
-def apply_write(detector, bucket, value, add, how=None):
-    """Fill `bucket` with the constant `value` (or add it to what the bucket holds) through the public way `how`."""
+def apply_write(detector, bucket, value, add, how=None, dtype=None):
+    """Fill `bucket` with the constant `value` (or add it to what the bucket holds) through the public way `how`,
+    as an array of `dtype` (default: float64, uint16 for the image)."""
     geo = detector.geometry
     shape = (geo.row, geo.col)
     if bucket == "scene":
@@ -168,7 +170,7 @@ def apply_write(detector, bucket, value, add, how=None):
     if bucket == "charge":
         how = how or "array"
         if how == "array":
-            detector.charge.add_charge_array(np.full(shape, float(value)))
+            detector.charge.add_charge_array(np.full(shape, float(value), dtype=np.dtype(dtype or "float64")))
         elif how == "particles":
             detector.charge.add_charge(**_particles_kw(detector, value))
         elif how == "dataframe":
@@ -185,7 +187,7 @@ def apply_write(detector, bucket, value, add, how=None):
     cur = getattr(obj, "_array", None)
     if bucket == "photon":
         if how in ("array_3d", "iadd_3d"):
-            new = _cube(detector, value)
+            new = _cube(detector, value, dtype)
             if how == "iadd_3d":
                 detector.photon += new          # (sets the cube when the container is empty)
             elif add and cur is not None:
@@ -193,7 +195,7 @@ def apply_write(detector, bucket, value, add, how=None):
             else:
                 obj.array_3d = new
             return
-        new = np.full(shape, float(value))
+        new = np.full(shape, float(value), dtype=np.dtype(dtype or "float64"))
         if how == "iadd" or (how == "array_iadd" and cur is None):
             detector.photon += new
         elif how == "array_iadd":
@@ -207,7 +209,7 @@ def apply_write(detector, bucket, value, add, how=None):
         else:
             raise RuntimeError(f"unknown way of filling photon: {how}")
         return
-    dt = np.dtype("uint16") if bucket == "image" else np.dtype("float64")
+    dt = np.dtype(dtype or ("uint16" if bucket == "image" else "float64"))
     new = np.full(shape, value, dtype=dt)
     if how == "array":
         obj.array = (obj.array + new) if (add and cur is not None) else new
@@ -232,7 +234,7 @@ def apply_write(detector, bucket, value, add, how=None):
 
 
 def writer(detector, plan=None):
-    """plan[i] = list of [bucket, value, add(, how)] applied at step i (indexed by detector.pipeline_count)."""
+    """plan[i] = list of [bucket, value, add(, how(, dtype))] applied at step i (indexed by detector.pipeline_count)."""
     EXEC[0] += 1
     i = int(detector.pipeline_count)
     ops = plan[i] if plan is not None and 0 <= i < len(plan) else []
